@@ -1,6 +1,6 @@
 (* C03 -- allocation failure is always signalled, never returned as null or absorbed.  Statements only. *)
 From Coq Require Import ZArith List Bool.
-From FM Require Import FixedStack SmallCarve PoolSpec SlotProofs ListLib PoolSpecProofs Stack StackProofs Arena ArenaProofs Iteration IterationProofs.
+From FM Require Import FixedStack SmallCarve PoolSpec SlotProofs ListLib PoolSpecProofs Stack StackProofs Arena ArenaProofs Iteration IterationProofs NewLoop NewLoopProofs.
 Import ListNotations.
 Local Open Scope Z_scope.
 
@@ -72,3 +72,19 @@ Theorem C03_iteration_refusal_changes_nothing : forall fence fill s thr size al,
   fst (it_step fence fill s (IAlloc thr size al)) = s.
 Proof. exact alloc_fail_unchanged. Qed.
 Print Assumptions C03_iteration_refusal_changes_nothing.
+(* new_allocator when the system refuses (NewLoop.v: the retry loop of the new_handler protocol under lowlevel_allocator).
+   Whatever the installed handlers do -- throw, uninstall themselves, install another handler further down a finite chain, or
+   make memory available -- a refused request ends in a pointer or in out_of_memory with its handler called once: never in a
+   null result, never in an endless loop ... *)
+Theorem C03_new_allocator_failure_is_signalled : forall table avail cur fuel, descending table ->
+  (match cur with Some h => h + 3 | None => 2 end <= fuel)%nat ->
+  fst (ll_allocate fuel table avail cur) = LPtr \/ fst (ll_allocate fuel table avail cur) = LThrowOom 1%nat.
+Proof. exact failure_is_signalled. Qed.
+Print Assumptions C03_new_allocator_failure_is_signalled.
+
+(* ... and no handler is called a second time: the handler is looked up again on every round *)
+Theorem C03_new_allocator_calls_no_handler_twice : forall table fuel avail cur, descending table ->
+  strictly_desc (snd (ll_allocate fuel table avail cur)).
+Proof. exact no_handler_called_twice. Qed.
+Print Assumptions C03_new_allocator_calls_no_handler_twice.
+
